@@ -38,6 +38,8 @@ class TokenScanner:
 
     def get_offset(self, offset: int = 0) -> AMTBase:
         """【不移动指针】获取 self._pos（当前指针）+ offset 位置的元素，如果当前元素不存在，则抛出异常"""
+        if self._pos + offset >= self._len:
+            raise SqlParseError(f"SQL 语句或插入语意外结束：{self}")
         return self._elements[self._pos + offset]
 
     def get_offset_or_null(self, offset: int = 0) -> Optional[AMTBase]:
@@ -61,6 +63,8 @@ class TokenScanner:
 
         - 如果要移动到的指针位置超出字符串长度，则抛出异常
         """
+        if self._pos >= self._len:
+            raise SqlParseError(f"SQL 语句或插入语意外结束：{self}")
         result = self._elements[self._pos]
         self._pos += 1  # 移动指针
         return result
@@ -214,7 +218,7 @@ class TokenScanner:
 
     def get_as_children_scanner(self) -> "TokenScanner":
         """不移动指针，并返回当前指针位置的插入语节点的子节点的扫描器"""
-        return TokenScanner(self.get_or_null().children)
+        return TokenScanner(self.get_offset().children)
 
     def pop_as_children_scanner(self) -> "TokenScanner":
         """将指针向后移动 1 个元素，并返回当前指针位置的插入语节点的子节点的扫描器"""
